@@ -21,6 +21,8 @@
 (*   R              "[r](2)"                   a block reference           *)
 (*   (blank)                                                               *)
 (*   I              "- item [i](2)"            a list item with a link     *)
+(*   (blank)                                                               *)
+(*   Q              "> [q](2)"                 a quote holding one reference *)
 (***************************************************************************)
 EXTENDS Naturals, Sequences, FiniteSets, TLC
 
@@ -43,6 +45,8 @@ LinkLine(P) == LinkLineW(P, "none")
 RefLine(P) == RefLineW(P, "none")
 ItemLine(P) == ItemLineW(P, "none")
 LastLine(P) == ItemLine(P)
+\* ... and after the item, a block quote that holds a single block reference: "> [q](2)"
+QuoteLineW(P, wrap) == ItemLineW(P, wrap) + 2
 
 \* the link is "[" ltext "](2)"; ltext is a sequence of character classes
 LinkLenT(lt) == SumUnits(lt) + 5
